@@ -3,6 +3,7 @@
 // independent SimulatorCallbacks samplers; the recorded test vectors are replayed into a fresh ReferenceSimulator.
 // Usage: c20 <seed> <ncases> <ncycles> [mode] [onlyCase]
 //   mode bit0: allow sub-picosecond WaitFor delays; bit1: allow WaitStable + reads right after power-on (same phase as the power-on SETs);
+//        bit3: many recorded variables (100..500 identifier codes: extra pins, named signals, taps, a memory of 64..256 words);
 //        bit2: allow WaitFor(0) directly after WaitStable (re-enters the time step) and runs that end exactly on a clock edge
 // Protocol per case (names are single tokens, bit strings MSB first):
 //   case <id> / sel <selection> / sig <i> <width> <bvec> <hidden> <name> <path gid:name,...|-> <mem id:name|->
@@ -333,7 +334,8 @@ static void runCase(uint64_t caseId, Rng rng, size_t ncycles, unsigned mode, con
 		size_t nclk = rng.chance(1, 4) ? 2 : 1;
 		std::vector<Island> islands;
 		size_t nameCtr = 0;
-		bool useMem = rng.chance(1, 3);
+		bool many = (mode & 8) != 0;   // many recorded variables: identifier codes well beyond the 94 one-character ones
+		bool useMem = many || rng.chance(1, 3);
 		std::vector<std::string> outNames, inNames;
 		for (size_t k = 0; k < nclk; k++) {
 			auto f = rng.pick(freqs);
@@ -412,13 +414,33 @@ static void runCase(uint64_t caseId, Rng rng, size_t ncycles, unsigned mode, con
 				}
 				if (rng.chance(1, 5)) { UInt t = vecs.back(); t.setName("t" + std::to_string(nameCtr++)); tap(t); }
 			}
+			if (many && k == 0) {
+				// lots of pins, named signals and taps
+				size_t extraIn = rng.range(10, 60), extraSig = rng.range(30, 150);
+				Bit acc = bits[0];
+				for (size_t j = 0; j < extraIn; j++) {
+					std::string nm = "i" + std::to_string(k) + "y" + std::to_string(j);
+					if (rng.chance(1, 2)) { InputPin p = pinIn(); p.setName(nm); acc = acc ^ Bit(p); isl.inPorts.push_back({.node = p.node(), .port = 0}); isl.inWidths.push_back(1); exp.pinName[p.node()] = nm; }
+					else { size_t w = rng.range(1, 5); InputPins p = pinIn(BitWidth(w)); p.setName(nm); UInt v = p; acc = acc ^ v[0]; vecs.push_back(v); isl.inPorts.push_back({.node = p.node(), .port = 0}); isl.inWidths.push_back(w); exp.pinName[p.node()] = nm; }
+					inNames.push_back(nm);
+				}
+				bits.push_back(acc);
+				for (size_t j = 0; j < extraSig; j++) {
+					UInt a = vecs[rng.below(vecs.size())];
+					UInt r = rng.chance(1, 2) ? UInt(~a) : UInt(a ^ fit(vecs[rng.below(vecs.size())], a.width().bits()));
+					r.setName("n" + std::to_string(nameCtr++));
+					tap(r);
+					if (rng.chance(1, 4)) vecs.push_back(r);
+				}
+			}
 			if (useMem && k == 0) {
 				size_t dw = rng.range(1, 9), depthWords = rng.chance(1, 2) ? 4 : 8;
+				if (many) { depthWords = rng.pick(std::vector<size_t>{64, 128, 256}); dw = rng.range(1, 4); }
 				Memory<UInt> mem(depthWords, UInt(BitWidth(dw)));
 				mem.noConflicts();
 				memRecs.push_back({"mem" + std::to_string(nameCtr++), depthWords, dw});
 				mem.setName(memRecs.back().name);
-				UInt addr = fit(vecs[rng.below(vecs.size())], depthWords == 4 ? 2 : 3);
+				UInt addr = fit(vecs[rng.below(vecs.size())], depthWords == 4 ? 2 : depthWords == 8 ? 3 : depthWords == 64 ? 6 : depthWords == 128 ? 7 : 8);
 				UInt data = fit(vecs[rng.below(vecs.size())], dw);
 				IF (bits[rng.below(bits.size())]) mem[addr] = data;
 				UInt rd = mem[addr];
@@ -513,6 +535,7 @@ static void runCase(uint64_t caseId, Rng rng, size_t ncycles, unsigned mode, con
 			unsigned m = (unsigned) rng.range(1, 63);
 			if (rng.chance(1, 3)) m = 1 | 4 | 8;
 			if (useMem && rng.chance(2, 3)) m |= 32;
+			if (many) m = 1 | 4 | 8 | 32 | (rng.chance(1, 4) ? 2 : 0);
 			// every selection is made on the real sink and, with its documented meaning, on the expectation
 			if (m & 1) { sink.addAllPins(); exp.allPins(design.getCircuit()); sel += "pins,"; }
 			if (m & 2) { sink.addAllOutPins(); exp.allOutPins(design.getCircuit()); sel += "outpins,"; }
